@@ -3,7 +3,7 @@ while_do, do_while, start_with, for_in, catch(handler))."""
 import copy
 
 import fw
-from fw import InjectedError, enc
+from fw import InjectedError, enc, err_name
 from props import comb_common as cc
 
 LEAN_TARGETS = ["RxProofs.C10"]
@@ -37,7 +37,9 @@ RULE = ("lists of 0..5 logged cold/hot sources with generated timelines and term
         "non-trivial = at least two sources were subscribed or a source terminated")
 ASSUMPTIONS = ["single-threaded / virtual-time execution: one run is one list of tagged events",
                "sources notify synchronously inside subscribe only in the inline hand-over cases",
-               "do_while is compared with its two nested scheduler hops collapsed into one (no dispose is placed between them)"]
+               "do_while is compared with its two nested scheduler hops collapsed into one (no dispose is placed between them)",
+               "no dispose between the subscription of an UNLOGGED failing source (rx.throw in the list / raising for_in mapper / while_do condition) "
+               "and the delivery of its scheduled error (only possible for the very first action)"]
 TRUSTED_EXTRA = ["the logging sources / tap of harness/props/comb_common.py as measuring instruments"]
 LEVEL_TEXT = ("Lean theorems (induction over arbitrary event lists, no bounds) on the trace machine of concat/catch/on_error_resume_next (+ repeat, retry, while_do, do_while, "
 "start_with, for_in as instances, catch(handler) separately): at most one source subscription live in every reachable state; a source is subscribed only by the scheduled "
@@ -111,10 +113,14 @@ def cases(rng, tier):
                 c["args"] = [enc(rng.choice(cc.FALSY)) for _ in range(rng.choice([0, 1, 2, 3]))]
             if op == "for_in":
                 c["mapper_raises_at"] = rng.choice([None, None, None] + list(range(k + 1)))
+                c["mapper_exc"] = rng.choice(["injected", "StopIteration", "StopIteration", "KeyError"])
             if op == "catch_handler":
                 c["handler_raises"] = rng.random() < 0.3
             if op == "oern":
-                c["factory"] = [rng.random() < 0.4 for _ in range(k)]
+                c["factory"] = [rng.random() < 0.5 for _ in range(k)]
+                # a factory's RESULT depends on its argument: the predecessor's error -> the `alt` source, None -> the regular one
+                c["alt"] = [({"mode": "cold", "msgs": cc.gen_timeline(rng, j, maxn=2, span=10, p_complete=0.5, p_error=0.4)}
+                             if f and rng.random() < 0.7 and c["srcs"][j]["mode"] != "timer" else None) for j, f in enumerate(c["factory"])]
                 # a source factory that raises (delivered as on_error since the C09 fix)
                 c["factory_raises_at"] = rng.choice([None, None, None] + list(range(k))) if k else None
                 if c["factory_raises_at"] is not None:
@@ -147,6 +153,7 @@ def cases(rng, tier):
                     c["srcs"][j] = {"mode": "throw", "err": f"t{j}"}
             if op == "oern":
                 c["factory"] = [f and c["srcs"][j]["mode"] != "throw" for j, f in enumerate(c["factory"])]
+                c["alt"] = [a if c["factory"][j] else None for j, a in enumerate(c.get("alt", [None] * len(c["factory"])))]
                 if c.get("factory_raises_at") is not None and c["srcs"][c["factory_raises_at"]]["mode"] == "throw":
                     c["factory_raises_at"] = None
         # sources that notify - in particular FAIL or complete - synchronously inside subscribe, under the queued hand-over too
@@ -168,6 +175,13 @@ def cases(rng, tier):
             first = c["srcs"][0] if "srcs" in c and c["srcs"] else c.get("src")
             if first is not None and first["mode"] == "cold" and first["msgs"] and first["msgs"][-1][1] != "N":
                 c["dispose"] = [cc.SUBSCRIBE_AT + first["msgs"][-1][0], 2]
+        # an unlogged failing source delivers its error through a scheduled action of its own; the model delivers it in the action that
+        # subscribes it. The only window in which a dispose can fall between the two is the very first action with a dispose queued
+        # right after subscribe(): not generated (documented assumption)
+        if c.get("dispose") is not None and c["dispose"][0] <= cc.SUBSCRIBE_AT and c["dispose"][1] == 1 and "second" not in c:
+            its, rest = items_of(c) if op != "catch_handler" else (["src"], "stop")
+            if its and isinstance(its[0], dict) and "fail" in its[0]:
+                c["dispose"][1] = 0
         yield c
 
 
@@ -192,12 +206,21 @@ def world_and_build(case):
         if op == "ops_catch_obs":
             return srcs[0].pipe(ops.catch(srcs[1]))
         if op == "oern":
-            def bad(e):
-                raise InjectedError("factory")
+            alts = case.get("alt") or [None] * len(srcs)
 
-            args = [(lambda e, s=s: s) if f else s for s, f in zip(srcs, case["factory"])]
-            if case.get("factory_raises_at") is not None:
-                args[case["factory_raises_at"]] = bad
+            def factory(j):
+                alt = cc.make_src(w, j, alts[j]) if alts[j] is not None else None
+
+                def f(e):
+                    # the argument each factory receives is part of the observable behaviour: logged
+                    w.log.append(["call", j, None if e is None else err_name(e), w.now()])
+                    if j == case.get("factory_raises_at"):
+                        raise InjectedError("factory")
+                    return alt if (e is not None and alt is not None) else srcs[j]
+
+                return f
+
+            args = [factory(j) if (f or j == case.get("factory_raises_at")) else s_ for j, (s_, f) in enumerate(zip(srcs, case["factory"]))]
             return rx.on_error_resume_next(*args)
         if op == "ops_oern":
             return srcs[0].pipe(ops.on_error_resume_next(srcs[1]))
@@ -222,6 +245,11 @@ def world_and_build(case):
         if op == "for_in":
             def mapper(j):
                 if j == case["mapper_raises_at"]:
+                    kind_ = case.get("mapper_exc", "injected")
+                    if kind_ == "StopIteration":
+                        raise StopIteration()
+                    if kind_ == "KeyError":
+                        raise KeyError("mapper")
                     raise InjectedError("mapper")
                 return srcs[j]
 
@@ -280,7 +308,8 @@ def items_of(case):
         r = case["mapper_raises_at"]
         if r is None:
             return ["src"] * k, "stop"
-        return ["src"] * r + [{"fail": "mapper"}], "stop"     # the mapper runs inside defer: a source that fails at once
+        name = {"injected": "mapper", "StopIteration": "StopIteration", "KeyError": "KeyError"}[case.get("mapper_exc", "injected")]
+        return ["src"] * r + [{"fail": name}], "stop"     # the mapper runs inside defer: a source that fails at once
     if op in ("repeat", "retry"):
         if case["count"] is None:
             return [], "src"
@@ -327,13 +356,26 @@ def model_request(case):
     return {"op": "seq", "kind": kind_of(case["op"]), "items": items, "rest": rest, "events": evs, "inline": bool(case.get("inline"))}
 
 
+def factory_positions(case):
+    if case["op"] != "oern":
+        return set()
+    return {j for j, f in enumerate(case["factory"]) if f} | ({case["factory_raises_at"]} if case.get("factory_raises_at") is not None else set())
+
+
 def canon_impl(case, out):
-    return cc.canon_real(out["split"])
+    r = cc.canon_real(out["split"])
+    if case["op"] == "oern":
+        r["calls"] = [[e[1], e[2]] for e in out["log"] if e[0] == "call"]
+    return r
 
 
 def canon_model(case, resp):
     sp = cc.split_log(_run(case), sync_ids_of(case))
-    return cc.canon_model_resp(sp["events"], resp, sync_ids_of(case))
+    r = cc.canon_model_resp(sp["events"], resp, sync_ids_of(case))
+    if case["op"] == "oern" and isinstance(resp, dict) and "calls" in resp:
+        fp = factory_positions(case)
+        r["calls"] = [c for c in resp["calls"] if c[0] in fp]     # the model's `state` for every position; factories sit at these
+    return r
 
 
 # --------------------------------------------------------------------------------------------- oracle (property text, from the log)
@@ -445,6 +487,20 @@ def oracle(case, out):
         fin = advance(s + 1, t, p)
     if got != expect:
         return f"{op}: got {got}, expected concatenation {expect}"
+    # on_error_resume_next: a factory receives the error of the source that just failed, None after a normal completion / at the start
+    if op == "oern":
+        for e in log:
+            if e[0] == "call":
+                j = e[1]
+                if j == 0:
+                    want = None
+                elif case["srcs"][j - 1]["mode"] == "throw":
+                    want = case["srcs"][j - 1]["err"]
+                else:
+                    lt = last_term.get(j - 1)
+                    want = lt[0][1] if (lt is not None and lt[0][0] == "E") else None
+                if e[2] != want:
+                    return f"the factory at position {j} received {e[2]!r}; its predecessor ended with {last_term.get(j - 1)}: it must receive {want!r}"
     v = cc.timer_delivery_failure(case.get("srcs", []), log)
     if v:
         return v
@@ -481,6 +537,13 @@ def bucket(case, out):
     yield f"subs={min(5, len([1 for e in log if e[0] == 'sub']))}"
     yield "dispose=" + str(any(e[0] == "dispose" for e in log))
     yield "cut=" + str(case.get("cut") is not None)
+    calls = [e for e in log if e[0] == "call"]
+    if calls:
+        yield "factory_calls"
+        if any(e[2] is not None for e in calls) and any(e[2] is None and e[1] > 0 for e in calls):
+            yield "factory_args_error_and_none"
+    if case["op"] == "for_in" and case.get("mapper_raises_at") is not None:
+        yield "mapper_exc=" + case.get("mapper_exc", "injected")
     if case.get("inline"):
         yield "inline"
         modes = [sp["mode"] for sp in case["srcs"]]
